@@ -46,7 +46,7 @@ def handle (op : String) (args : List String) (impl : String) : Option Verdict :
     if k == 0 && kind != .btc then return ⟨"panic", impl == "panic", "life:k=0"⟩
     let m := runAll cfg w stored0 ls
     let ok := match parseHist impl with
-      | some h => P05 cfg w stored0 ls h
+      | some h => P05 cfg w stored0 ls h && histPrompt cfg ls h
       | none => false
     let crashed := ls.any (fun l => l.any (fun r => r.2.isSome))
     let panics := decide ((lifes.splitOn ":p").length > 1)
